@@ -340,6 +340,8 @@ theorem vinstr_sim {it : Item} {ω : Oracle} {a a' : VState} {c : CState} {i : I
     (h : Rk it a c) (ha : vInstr it a i = some a') :
     wrongRead it c i = false ∧ ∀ c', cInstr it ω c i = .ok c' → Rk it a' c' := by
   unfold vInstr at ha
+  split at ha
+  · cases ha
   unfold wrongRead
   cases hvr : variantRead it i with
   | none =>
